@@ -660,7 +660,7 @@ impl Model for M {
 	fn project(&self, w: &World) -> Value {
 		let ar = art(w);
 		let ids = known_ids(&ar);
-		let opts = ProjOpts { slots: ids, heights: true };
+		let opts = ProjOpts { slots: ids, heights: true, canon_ids: true };
 		json!({"A": project_wallet(w.w("A"), &opts), "pool": w.node.mempool_len(), "received": ar.received})
 	}
 }
